@@ -8,7 +8,7 @@ for d in $dirs; do
   d=${d%/}; id=$(basename $d); P=${id%%-*}
   [ -f $d/patch.diff ] || continue
   if [ -n "$(git -C /repo status --porcelain --untracked-files=no)" ]; then echo "/repo not clean"; exit 1; fi
-  if ! git -C /repo apply $d/patch.diff 2>/dev/null; then echo "$id: patch no longer applies to /repo HEAD"; continue; fi
+  if ! git -C /repo apply /verif/$d/patch.diff 2>/dev/null; then echo "$id: patch no longer applies to /repo HEAD"; continue; fi
   start=$(date +%s); ./check $P --tier quick > $d/check_patched.log 2>&1; rc=$?; end=$(date +%s)
   cp work/replay/$P-*.json $d/ 2>/dev/null
   git -C /repo checkout -- .
